@@ -107,7 +107,8 @@ async def f():
 def wAsync : NProg :=
   { scopes := [
       { kind := .module, pscope := 0, start := ⟨1, 0⟩, colon := ⟨1, 0⟩, suite := ⟨1, 0⟩, stop := ⟨3, 0⟩, name := "" },
-      { kind := .function, pscope := 0, start := ⟨1, 6⟩, colon := ⟨1, 13⟩, suite := ⟨1, 14⟩, stop := ⟨3, 0⟩, name := "f" }],
+      { kind := .function, pscope := 0, start := ⟨1, 6⟩, colon := ⟨1, 13⟩, suite := ⟨1, 14⟩, stop := ⟨3, 0⟩, name := "f",
+        stmt := ⟨1, 0⟩ }],
     leaves := [
       { start := ⟨1, 0⟩, stop := ⟨1, 5⟩, pscope := 0, isParamName := false, role := .other, name := "" },
       { start := ⟨1, 6⟩, stop := ⟨1, 9⟩, pscope := 1, isParamName := false, role := .other, name := "" },
@@ -146,6 +147,37 @@ def wDedent : NProg :=
       { start := ⟨4, 4⟩, stop := ⟨4, 5⟩, pscope := 1, isParamName := false, role := .other, name := "" },
       { start := ⟨4, 5⟩, stop := ⟨5, 0⟩, pscope := 1, isParamName := false, role := .newline, name := "" },
       { start := ⟨5, 0⟩, stop := ⟨5, 0⟩, pscope := 0, isParamName := false, role := .endmarker, name := "" }],
+    modNames := some ["mod"] }
+
+/-- ```
+def d(q=lambda: [b for b in it]): pass
+``` -/
+def wHdrLam : NProg :=
+  { scopes := [
+      { kind := .module, pscope := 0, start := ⟨1, 0⟩, colon := ⟨1, 0⟩, suite := ⟨1, 0⟩, stop := ⟨2, 0⟩, name := "" },
+      { kind := .function, pscope := 0, start := ⟨1, 0⟩, colon := ⟨1, 32⟩, suite := ⟨1, 34⟩, stop := ⟨2, 0⟩, name := "d" },
+      { kind := .lambda, pscope := 1, start := ⟨1, 8⟩, colon := ⟨1, 14⟩, suite := ⟨1, 16⟩, stop := ⟨1, 31⟩, name := "<lambda>" },
+      { kind := .comp, pscope := 2, start := ⟨1, 19⟩, colon := ⟨1, 19⟩, suite := ⟨1, 28⟩, stop := ⟨1, 30⟩, name := "" }],
+    leaves := [
+      { start := ⟨1, 0⟩, stop := ⟨1, 3⟩, pscope := 1, isParamName := false, role := .other, name := "" },
+      { start := ⟨1, 4⟩, stop := ⟨1, 5⟩, pscope := 1, isParamName := false, role := .defName 1, name := "d" },
+      { start := ⟨1, 5⟩, stop := ⟨1, 6⟩, pscope := 1, isParamName := false, role := .other, name := "" },
+      { start := ⟨1, 6⟩, stop := ⟨1, 7⟩, pscope := 1, isParamName := true, role := .param, name := "q" },
+      { start := ⟨1, 7⟩, stop := ⟨1, 8⟩, pscope := 1, isParamName := false, role := .other, name := "" },
+      { start := ⟨1, 8⟩, stop := ⟨1, 14⟩, pscope := 2, isParamName := false, role := .other, name := "" },
+      { start := ⟨1, 14⟩, stop := ⟨1, 15⟩, pscope := 2, isParamName := false, role := .other, name := "" },
+      { start := ⟨1, 16⟩, stop := ⟨1, 17⟩, pscope := 2, isParamName := false, role := .other, name := "" },
+      { start := ⟨1, 17⟩, stop := ⟨1, 18⟩, pscope := 3, isParamName := false, role := .use, name := "b" },
+      { start := ⟨1, 19⟩, stop := ⟨1, 22⟩, pscope := 3, isParamName := false, role := .other, name := "" },
+      { start := ⟨1, 23⟩, stop := ⟨1, 24⟩, pscope := 3, isParamName := false, role := .bind, name := "b" },
+      { start := ⟨1, 25⟩, stop := ⟨1, 27⟩, pscope := 3, isParamName := false, role := .other, name := "" },
+      { start := ⟨1, 28⟩, stop := ⟨1, 30⟩, pscope := 3, isParamName := false, role := .use, name := "it" },
+      { start := ⟨1, 30⟩, stop := ⟨1, 31⟩, pscope := 2, isParamName := false, role := .other, name := "" },
+      { start := ⟨1, 31⟩, stop := ⟨1, 32⟩, pscope := 1, isParamName := false, role := .other, name := "" },
+      { start := ⟨1, 32⟩, stop := ⟨1, 33⟩, pscope := 1, isParamName := false, role := .other, name := "" },
+      { start := ⟨1, 34⟩, stop := ⟨1, 38⟩, pscope := 1, isParamName := false, role := .other, name := "" },
+      { start := ⟨1, 38⟩, stop := ⟨2, 0⟩, pscope := 1, isParamName := false, role := .newline, name := "" },
+      { start := ⟨2, 0⟩, stop := ⟨2, 0⟩, pscope := 0, isParamName := false, role := .endmarker, name := "" }],
     modNames := some ["mod"] }
 
 /-- ```
